@@ -43,7 +43,7 @@ claim("C08", "Coq proof (cache-coherence invariant of the decoder-reuse rule, an
       "Proof: C08_mszip_decoder_resumable - on the ported mszipd_decompress a request for a then b bytes equals a request for a + b (output, status, stream state), for every input and state; and over an abstract folder (plaintext, optional damage point, frame granularity) and the reuse rule of cabd_extract (same folder, offset not behind the cursor, live decoder; permanent decoder errors; empty members skipped), every call after ANY history returns what a fresh decoder returns; intact folders always yield the exact slice. The rule is an abstraction of cabd_extract/chmd_extract, tied to the C by the history-vs-fresh oracle on generated cabinets, sets and CHMs (one third with a damaged folder), not by a line-by-line port.",
       NOTE, "4/C08")
 
-claim("C11", "Coq proof (bisimulation: run independent of the contents of fresh memory, for every host) on the SZDD/LZSS port + differential runs of the C library under four (hostile inputs: ten) allocator fill patterns",
+claim("C11", "Coq proof (bisimulation: run independent of the contents of fresh memory, for every host) on the SZDD/LZSS port + differential runs of the C library under four allocator fill patterns (hostile inputs: five more, small values that pass for code lengths)",
       "Proof: for every host and any two contents of freshly allocated memory the complete run of the SZDD scripts (result, every callback with its bytes, ledger) is identical. Tie: L2 correspondence. LZX (early-match rejection), MSZIP, Quantum, KWAJ-LZH, CAB and CHM paths are covered on the C side only: every corpus scenario and hostile inputs reaching unwritten memory are run under four allocator fill patterns and must give identical statuses, listings and bytes - partial.",
       NOTE, "4/C11")
 
